@@ -30,13 +30,22 @@ def parts(tier):
 
 @gen.st.composite
 def _strategy(draw):
-    mode = draw(gen.st.integers(0, 5))
+    mode = draw(gen.st.integers(0, 6))
     hard = tuple([gen.NH] * 6 + [gen.N, gen.N0, gen.A, gen.Z, gen.B, gen.BN, gen.BN, gen.ZN, gen.T_HI])
     sbo = 3  # blocklisted states (together with unit blocklists) in a third of the multi-state elections
     if mode == 0:  # everything reports
         case = draw(gen.election_case(max_other=0, special_counties=False, thresholds=(100, 90), state_blocklist_odds=sbo))
     elif mode in (1, 2):
         case = draw(gen.election_case(statuses=hard, min_nonrep=2, swing_scale=0.05, state_blocklist_odds=sbo))
+    elif mode == 6:
+        # larger multi-state gaussian elections: groups with their own calibration model next to groups (of the same
+        # classification / district label in another state) that fall back on a parent's model
+        case = draw(
+            gen.election_case(
+                estimators=("gaussian",), statuses=hard, min_nonrep=6, slack=(25, 90), max_other=30, min_states=2, max_counties=3, outliers=(False,), allow_fe=False, state_blocklist_odds=sbo
+            )
+        )
+        case["req"]["mp"].pop("winsorize", None)
     elif mode == 3:
         case = draw(gen.election_case(statuses=hard, min_nonrep=2, swing_scale=2.0, state_blocklist_odds=sbo))
     else:
